@@ -206,6 +206,35 @@ func (u *ufac) group(parent map[string]any, kidsKey string, depth int, forceB bo
 			}
 		}
 	}
+	// must statements (any number per node): some stay in the grouping, the others are added by a refine
+	for _, c := range cands {
+		n := c.node
+		if cstr(n, "k") != "leaf" || cbool(n, "_refined") || cbool(n, "_musted") || !r.Chance(22) {
+			continue
+		}
+		n["_musted"] = true // once per node: a nested grouping level sees the node again
+		all := []string{pick(r, []string{". != 7", "string-length(.) < 10", "../x or true()"})}
+		if r.Bool() {
+			all = append(all, pick(r, []string{"not(. = 'zz')", "count(../*) >= 0"}))
+		}
+		if r.Chance(40) {
+			all = append(all, ". = .")
+		}
+		keep := r.Intn(len(all) + 1)
+		// the inline module has all of them on the node, in this order
+		var qs []map[string]any
+		findAllByName(u.plain, cstr(n, "n"), &qs)
+		for _, pq := range qs {
+			pq["musts"] = toAny(all)
+		}
+		if keep > 0 {
+			n["musts"] = toAny(all[:keep])
+		}
+		if keep < len(all) {
+			n["_refined"] = true
+			refines = append(refines, map[string]any{"path": toAny(c.path), "prop": "must", "musts": toAny(all[keep:])})
+		}
+	}
 	// an augment under the uses: part of the children of a node of the grouping
 	var augs []any
 	if r.Chance(35) {
@@ -633,6 +662,14 @@ func renderUses(b *strings.Builder, n map[string]any, ind string) {
 		var p []string
 		for _, e := range carr(rm, "path") {
 			p = append(p, e.(string))
+		}
+		if cstr(rm, "prop") == "must" {
+			body.WriteString(ind + "  refine " + strings.Join(p, "/") + " {")
+			for _, m := range carr(rm, "musts") {
+				body.WriteString(" must " + yq(m.(string)) + ";")
+			}
+			body.WriteString(" }\n")
+			continue
 		}
 		body.WriteString(ind + "  refine " + strings.Join(p, "/") + " { " + cstr(rm, "prop") + " " + yq(cstr(rm, "val")) + "; }\n")
 	}
